@@ -34,7 +34,9 @@ def add(rule_id, key, pos, desc, ok, detail=""):
 
 def canonical(path):
     """bash's canonical rendering of the script body as the body of a function."""
-    src = open(path).read()
+    return canonical_text(open(path).read(), path)
+
+def canonical_text(src, path="<text>"):
     lines = src.split("\n")
     if lines and lines[0].startswith("#!"):
         lines = lines[1:]
@@ -196,6 +198,11 @@ def parse_block(lines, i, indent):
         i += 1
     return nodes, i
 
+def parse_text(src):
+    lines = canonical_text(src).split("\n")
+    body, _ = parse_block(lines, 2, 4)
+    return body
+
 def parse_script(path):
     dump = canonical(path)
     lines = dump.split("\n")
@@ -306,8 +313,11 @@ def main():
                 target in ("$POLICYDB/LOCK", "${POLICYDB}/LOCK"), "lock file is not $POLICYDB/LOCK")
     if fd is None:
         add("R19.a", "lock-fd-open", "bin/newpolicy.sh", "no top-level exec N<> $POLICYDB/LOCK", False, "lock descriptor not opened")
-    calls = [c for c in top if c.words and not re.match(r"^[A-Za-z_][A-Za-z0-9_]*=", c.words[0]) and c.words[0] != "exec"]
-    add("R19.a", "only-main-at-top", "bin/newpolicy.sh", "top-level commands other than assignments/exec: %s" % [c.text for c in calls],
+    # builtins that neither touch the database nor the control flow; traps are judged by R19.j
+    PURE_TOP = {"echo", "printf", ":", "true", "umask", "export", "readonly", "trap"}
+    calls = [c for c in top if c.words and not re.match(r"^[A-Za-z_][A-Za-z0-9_]*=", c.words[0]) and c.words[0] != "exec"
+             and not (c.words[0] in PURE_TOP and not any(re.match(r"^\d*(>>?|>\||<>)", w) for w in c.words[1:]))]
+    add("R19.a", "only-main-at-top", "bin/newpolicy.sh", "top-level commands other than assignments/exec/trap/echo: %s" % [c.text for c in calls],
         len(calls) == 1 and calls[0].text == "main", "something other than `main` runs at top level (outside the lock)")
     if execs and calls:
         add("R19.a", "fd-before-main", "bin/newpolicy.sh", "lock descriptor is opened before main is called", execs[0].order < calls[0].order, "")
@@ -321,6 +331,38 @@ def main():
            and e.andor == "||" and e.words[0] == "exit" and len(e.words) > 1 and e.words[1] not in ("0",):
             ok = True
     add("R19.a", "flock-first", "bin/newpolicy.sh", "main starts with `%s %s %s`" % (mainc[0].text if mainc else "", mainc[1].andor if len(mainc) > 1 else "", mainc[1].text if len(mainc) > 1 else ""), ok, detail)
+
+    # ---- R19.j: a trapped signal still ends the run
+    rule("R19.j", "A kill still stops the run: every `trap` for a real signal (anything but EXIT/0, ERR, DEBUG, RETURN) either ignores or resets the signal (handler '' or -) or its handler -- a function of the script or an inline command list, parsed by bash -- ends with an unconditional `exit`. A handler that returns lets the script continue after the interrupted command as if that command had finished (a killed compile would be taken for done). Functions that are such exiting handlers may remove the work directory `next`.")
+    exiting_handlers = set()
+    for c in cmds:
+        if c.words[:1] != ["trap"] or len(c.words) < 3 or c.words[1].startswith("-") and c.words[1] != "-":
+            continue
+        h, sigs = c.words[1], c.words[2:]
+        real = [x for x in sigs if x.upper().replace("SIG", "") not in ("EXIT", "0", "ERR", "DEBUG", "RETURN")]
+        if not real:
+            continue
+        ht = h
+        if len(ht) >= 2 and ht[0] in "'\"" and ht[-1] == ht[0]:
+            ht = ht[1:-1]
+        if ht in ("", "-"):
+            add("R19.j", "trap|%s|%s" % (c.func, " ".join(real)), "bin/newpolicy.sh", "`%s` ignores/resets the signal" % c.text, True)
+            continue
+        hc = []
+        if ht in funcs:
+            flatten(funcs[ht].body, ht, [], hc)
+        else:
+            try:
+                flatten(parse_text(ht), "<trap>", [], hc)
+            except Exception as e:
+                add("R19.j", "trap|%s|%s" % (c.func, " ".join(real)), "bin/newpolicy.sh", "`%s`" % c.text, False, "handler cannot be parsed: %s" % e)
+                continue
+        last = hc[-1] if hc else None
+        ends = last is not None and last.words[:1] == ["exit"] and not last.ctx and last.andor in (None, "")
+        if ends and ht in funcs:
+            exiting_handlers.add(ht)
+        add("R19.j", "trap|%s|%s" % (c.func, " ".join(real)), "bin/newpolicy.sh", "`%s`: handler ends with `%s`" % (c.text, last.text if last else ""), ends,
+            "the handler returns: after the signal the script goes on behind the interrupted command as if it had succeeded or failed normally")
 
     # ---- R19.h: the lock is never given up before the process ends
     rule("R19.h", "The lock is held until the process exits: no command of newpolicy.sh unlocks or re-locks the lock descriptor (`flock -u`, any further `flock` on it), closes it (`N>&-`, `N<&-`) or re-opens it (`exec N...` other than the one top-level open); so everything the script does after the initial flock happens under the lock.")
@@ -371,7 +413,7 @@ def main():
     nx = lambda w: w.strip("\"'") in ("$NEXT", "${NEXT}", "next", "$POLICYDB/next")
     for c in cmds:
         if writes_path(c, nx):
-            okf = c.func in ("prepare_next", "handle_success")
+            okf = c.func in ("prepare_next", "handle_success") or c.func in exiting_handlers
             add("R19.e", "next-writer|%s|%s" % (c.func, c.words[0]), "bin/newpolicy.sh", "`%s` in %s" % (c.text, c.func), okf, "work directory modified in an unexpected phase")
 
     # other scripts in bin/
